@@ -11,6 +11,12 @@ import numpy as np
 from . import common as C
 
 PID = 'C08'
+
+
+def translate():
+    from translate import conjugates as T
+    return {'Gen/Conjugates.v': T.translate()}
+
 SHARD_SIZE = 60
 RULE = ('random functional expression trees (depth 0..3 quick, 0..4 thorough) over 17 node classes '
         '(LpNorm p=1,2,inf, IndicatorLpUnitBall, L2NormSquared, Constant/Zero, IndicatorZero, Huber, '
@@ -33,8 +39,11 @@ ASSUMPTIONS = [
     'RightVectorMult entries <> 0, QuadraticPerturb a >= 0, Huber gamma > 0, QuadraticForm scaling a > 0, sigma > 0',
 ]
 TRUSTED = [
-    'C08/Model.v hand-written model of the convex_conj / proximal / gradient / _call bodies, tied to /repo by the '
-    'in-Coq correspondence on random trees (class tree of the conjugates is compared, not only values)',
+    'translate/conjugates.py (reusing the grammar of translate/prox_bindings.py): fail-closed ast -> Gen/Conjugates.v; '
+    'C08/ConjTables.v interpreter of those bodies (meaning of attribute reads, class constructors and operator overloads)',
+    'C08/Model.v hand-written model of the proximal / gradient / _call bodies and of the operator overloads, tied to /repo by '
+    'the in-Coq correspondence on random trees (class tree of the conjugates is compared, not only values); the convex_conj '
+    'rules themselves are regenerated from source and cconj is PROVED to satisfy them (cconj_generated)',
     'np.sqrt is a parameter of the model (executed as a 30-digit rational approximation exact on perfect squares; '
     'in proofs any function with sqrtf(a)^2 = a, sqrtf(a) >= 0 on a >= 0)',
     'KullbackLeibler pairs, GroupL1Norm pair, NuclearNorm pair, general-p LpNorm, QuadraticForm with a matrix '
